@@ -57,7 +57,9 @@ pub struct PanicRec {
 impl PanicRec {
     /// signature: file (crate-relative, no line) + message with digits collapsed
     pub fn sig(&self, call: &str) -> String {
-        format!("panic@{}:{}:{}", call, self.file, normalize_msg(&self.msg))
+        // messages may quote input data (strings, byte lists): the first 72 characters identify the site
+        let msg: String = normalize_msg(&self.msg).chars().take(72).collect();
+        format!("panic@{}:{}:{}", call, self.file, msg)
     }
     pub fn failure(&self, call: &str) -> Failure {
         Failure::new(self.sig(call), format!("panic in {} at {}:{}: {}", call, self.file, self.line, self.msg))
@@ -67,6 +69,21 @@ impl PanicRec {
 /// Collapse every run of digits to '#', so that messages like
 /// "index out of bounds: the len is 3 but the index is 7" are stable.
 pub fn normalize_msg(m: &str) -> String {
+    // escaped characters quoted from the input ('\u{e9}') are data, not part of the site
+    let mut m2 = String::with_capacity(m.len());
+    let mut rest = m;
+    while let Some(i) = rest.find("\\u{") {
+        m2.push_str(&rest[..i]);
+        m2.push('?');
+        match rest[i..].find('}') {
+            Some(j) => rest = &rest[i + j + 1..],
+            None => {
+                rest = "";
+            }
+        }
+    }
+    m2.push_str(rest);
+    let m = m2.as_str();
     let mut out = String::with_capacity(m.len());
     let mut in_digits = false;
     for ch in m.chars() {
